@@ -58,6 +58,7 @@ pub struct Entry {
     pub info: fn() -> String,
     pub samples: fn() -> Vec<Result<String, String>>,
     pub deser: fn(&str) -> Result<String, String>,
+    pub export_all_to: fn(&str) -> Result<(), String>,
 }
 
 fn guarded(f: impl FnOnce() -> String + std::panic::UnwindSafe) -> serde_json::Value {
@@ -111,6 +112,14 @@ pub fn deser<T: Serialize + for<'de> Deserialize<'de>>(json: &str) -> Result<Str
     match serde_json::from_str::<T>(json) {
         Ok(v) => serde_json::to_string(&v).map_err(|e| format!("reser: {e}")),
         Err(e) => Err(e.to_string()),
+    }
+}
+
+pub fn export_all_to<T: TS + 'static + ?Sized>(dir: &str) -> Result<(), String> {
+    match std::panic::catch_unwind(|| T::export_all_to(dir)) {
+        Ok(Ok(())) => Ok(()),
+        Ok(Err(e)) => Err(e.to_string()),
+        Err(_) => Err("panic".to_string()),
     }
 }
 
